@@ -4,6 +4,7 @@ from qv.core import AnalysisBroken
 from qv.esp import Engine
 from rules import qsend
 from rules.qsend import attach
+from qv.lib import branch_zero_test
 
 
 def run(ctx):
@@ -44,7 +45,7 @@ def run(ctx):
     for x in rets:
         g = f.guards(x) or []
         gs = [(c.strip(), t) for c, t in g]
-        has_np = any(c.k == 'un' and c.op == '!' and c.args[0].strip().k == 'call' and c.args[0].strip().callee == 'trigger_pulled' and t is True for c, t in gs)
+        has_np = any(branch_zero_test(c, t, lambda v: v.strip().k == 'call' and v.strip().callee == 'trigger_pulled') == 'zero' for c, t in gs)
         has_nd = any(c.k == 'bin' and c.op == '<' and c.args[0].path() == 'G:recent' and c.args[1].path() == 'G:nexttodorun' and t is True for c, t in gs)
         if has_np and has_nd:
             skip_ok = True
@@ -53,10 +54,10 @@ def run(ctx):
     for x in rets:
         g = f.guards(x) or []
         gs = [(c.strip(), t) for c, t in g]
-        under_closed = any(c.k == 'un' and c.op == '!' and c.args[0].path() == 'G:tododir' and t is True for c, t in gs)
+        under_closed = any(branch_zero_test(c, t, lambda v: v.path() == 'G:tododir') == 'zero' for c, t in gs)
         before_set = not f.dominates(ts[0], x)
         if under_closed and before_set:
-            has_np = any(c.k == 'un' and c.op == '!' and c.args[0].strip().k == 'call' and c.args[0].strip().callee == 'trigger_pulled' and t is True for c, t in gs)
+            has_np = any(branch_zero_test(c, t, lambda v: v.strip().k == 'call' and v.strip().callee == 'trigger_pulled') == 'zero' for c, t in gs)
             r2.check(has_np, 'pulled-trigger-never-skipped@%d' % x.line, x.where, 'todo_do returns with no scan although the trigger may have been pulled')
     nt = [x for x in f.all_x() if x.k == 'asg' and x.args[0].path() == 'G:nexttodorun']
     sl = db.unit('qmail-send.c').macro_int('SLEEP_TODO')
